@@ -2,13 +2,14 @@
 use crate::engine::Outcome;
 use serde_json::Value;
 
-pub const ENGINES: &[&str] = &["C13", "C16", "C12", "C11"];
+pub const ENGINES: &[&str] = &["C13", "C16", "C12", "C11", "C06"];
 
 pub fn cases(engine: &str, run_seed: u64, tier: &str, scratch: &str) -> Vec<Value> {
     match engine {
         "C13" => crate::c13::cases(run_seed, tier, scratch),
         "C12" => crate::c12::cases(run_seed, tier, scratch),
         "C11" => crate::c11::cases(run_seed, tier, scratch),
+        "C06" => crate::c06::cases(run_seed, tier, scratch),
         #[cfg(umya_verif_sched)]
         "C16" => crate::c16::cases(run_seed, tier, scratch),
         _ => Vec::new(),
@@ -20,6 +21,7 @@ pub fn execute(case: &Value, scratch: &str) -> Outcome {
         "C13" => crate::c13::execute(case, scratch),
         "C12" => crate::c12::execute(case, scratch),
         "C11" => crate::c11::execute(case, scratch),
+        "C06" => crate::c06::execute(case, scratch),
         #[cfg(umya_verif_sched)]
         "C16" => crate::c16::execute(case, scratch),
         e => Outcome { harness_error: Some(format!("unknown engine {:?}", e)), ..Default::default() },
@@ -32,6 +34,7 @@ pub fn shrink_keys(engine: &str) -> &'static [&'static str] {
         "C13" => &["faults", "ops"],
         "C12" => &["steps"],
         "C11" => &["events"],
+        "C06" => &["steps"],
         "C16" => &["clone_ops", "base_ops", "savers"],
         _ => &["ops"],
     }
